@@ -1,20 +1,23 @@
 (* Property C19: container headers behave as the abstract map / bit-set / sequences they model.
    This file holds only the property theorems, each closed by [exact] and followed by
-   Print Assumptions. *)
-From Coq Require Import List ZArith.
-From MirV Require Import C19.Varr C19.VarrProofs.
+   Print Assumptions.  Models: C19/Varr.v Bitmap.v Htab.v Dlist.v (definitions only);
+   proofs: C19/*Proofs.v, C19/Lcg.v. *)
+From Coq Require Import List ZArith NArith Bool Sorted.
+Import ListNotations.
+From MirV Require Import C19.Varr C19.VarrProofs C19.Bitmap C19.BitmapProofs C19.Dlist C19.DlistProofs.
 
+(* ------------------------------------------------------------------ VARR *)
 (* VARR: for every script from every well-formed array, each step keeps els_num <= size, each
    list operation (push, push_arr, pop, trunc, set, get, last, length) returns what the same
    operation returns on the plain list of live elements and leaves exactly that list's successor,
    the model rejects an op iff the list spec rejects it, and every realloc reports the true old
    and new capacity (the block's true previous size, needed by C17). *)
-Theorem varr_refines_list : forall ops v, wf v -> srun_mixed v ops.
+Theorem varr_refines_list : forall ops v, Varr.wf v -> srun_mixed v ops.
 Proof. exact varr_script_refines. Qed.
 Print Assumptions varr_refines_list.
 
 Theorem varr_capacity_ops_keep_contents : forall v o v' out ev,
-  wf v -> list_op o = false -> vstep v o = Some (v', out, ev) ->
+  Varr.wf v -> list_op o = false -> vstep v o = Some (v', out, ev) ->
   match o with
   | VTailor n => firstn (Nat.min n (els_num v)) (abs v') = firstn (Nat.min n (els_num v)) (abs v)
                  /\ els_num v' = n /\ cap v' = n
@@ -22,3 +25,113 @@ Theorem varr_capacity_ops_keep_contents : forall v o v' out ev,
   end.
 Proof. exact vstep_cap_ops. Qed.
 Print Assumptions varr_capacity_ops_keep_contents.
+
+(* ------------------------------------------------------------------ BITMAP
+   The set a bitmap denotes is [fun n => bit_p bm n] (= [wbit bm n], theorem bitmap_bit_p_spec).
+   [changed a b] = the two sets differ at some n.  [wfb]/[wfs]: all words < 2^64; holds in every
+   reachable store (bitmap_reachable_wf), and no operation with valid ids gets stuck. *)
+Local Open Scope N_scope.
+
+Theorem bitmap_bit_p_spec : forall bm n, bit_p bm n = wbit bm n.
+Proof. exact bit_p_spec. Qed.
+Print Assumptions bitmap_bit_p_spec.
+
+Theorem bitmap_reachable_wf : forall n, wfs (bst (binit n)) /\
+  (forall s o s' out, wfs (bst s) -> bstep true s o = Some (s', out) -> wfs (bst s')) /\
+  (forall s o, wfs (bst s) -> valid (bst s) (bop_ids s o) = true -> bstep true s o <> None).
+Proof. exact (fun n => conj (binit_wf n) (conj bstep_wf bstep_total)). Qed.
+Print Assumptions bitmap_reachable_wf.
+
+(* set_bit_p / clear_bit_p: result set, and the returned flag is true exactly when the set changed *)
+Theorem bitmap_set_bit_spec : forall bm n bm' r, wfb bm -> set_bit_p bm n = (bm', r) ->
+  wfb bm' /\ (forall m, wbit bm' m = (m =? n) || wbit bm m) /\ (r = true <-> changed bm' bm).
+Proof. exact set_bit_p_spec. Qed.
+Print Assumptions bitmap_set_bit_spec.
+
+Theorem bitmap_clear_bit_spec : forall bm n bm' r, wfb bm -> clear_bit_p bm n = (bm', r) ->
+  wfb bm' /\ (forall m, wbit bm' m = negb (m =? n) && wbit bm m) /\ (r = true <-> changed bm' bm).
+Proof. exact clear_bit_p_spec. Qed.
+Print Assumptions bitmap_clear_bit_spec.
+
+(* set/clear_bit_range_p (the lsh/rsh/mask loop): never runs out of fuel, sets resp. clears exactly
+   [nb, nb+len), flag = true exactly when the set changed *)
+Theorem bitmap_range_spec : forall bm nb len setp, wfb bm ->
+  exists bm' r, set_or_clear_bit_range_p bm nb len setp = Some (bm', r) /\ wfb bm' /\
+    (forall m, wbit bm' m = if in_range nb len m then setp else wbit bm m) /\
+    (r = true <-> changed bm' bm).
+Proof. exact set_or_clear_bit_range_p_spec. Qed.
+Print Assumptions bitmap_range_spec.
+
+(* op2 = and / and_compl / ior and op3 = ior_and / ior_and_compl, on a store, for EVERY choice of
+   the ids dst, src1, src2(, src3) -- all aliasing patterns: the other bitmaps are untouched, the
+   destination denotes the set-algebra result of the PRE-state sets, and the returned flag is true
+   exactly when the destination's set changed (fixes/C19-1.patch; false before it: see
+   opn_unfixed_flag_refuted in BitmapProofs.v). *)
+Theorem bitmap_op2_spec : forall f fb,
+  In (f, fb) [(f_and, fb_and); (f_and_compl, fb_and_compl); (f_ior, fb_ior)] ->
+  forall st dst s1 s2 st' r, wfs st -> (dst < length st)%nat ->
+  opn true f dst [s1; s2] st = (st', r) ->
+  wfs st' /\ length st' = length st /\ (forall b, b <> dst -> getb st' b = getb st b) /\
+  (forall n, bit_p (getb st' dst) n = fb [bit_p (getb st s1) n; bit_p (getb st s2) n]) /\
+  (r = true <-> changed (getb st' dst) (getb st dst)).
+Proof. exact op2_spec. Qed.
+Print Assumptions bitmap_op2_spec.
+
+Theorem bitmap_op3_spec : forall f fb,
+  In (f, fb) [(f_ior_and, fb_ior_and); (f_ior_and_compl, fb_ior_and_compl)] ->
+  forall st dst s1 s2 s3 st' r, wfs st -> (dst < length st)%nat ->
+  opn true f dst [s1; s2; s3] st = (st', r) ->
+  wfs st' /\ length st' = length st /\ (forall b, b <> dst -> getb st' b = getb st b) /\
+  (forall n, bit_p (getb st' dst) n = fb [bit_p (getb st s1) n; bit_p (getb st s2) n; bit_p (getb st s3) n]) /\
+  (r = true <-> changed (getb st' dst) (getb st dst)).
+Proof. exact op3_spec. Qed.
+Print Assumptions bitmap_op3_spec.
+
+(* FOREACH_BITMAP_BIT terminates and delivers exactly the members, each once, strictly increasing;
+   one bitmap_iterator_next returns the least member >= nbit and steps past it *)
+Theorem bitmap_iter_spec : forall bm, wfb bm ->
+  exists l, foreach bm = Some l /\ StronglySorted N.lt l /\ (forall n, In n l <-> bit_p bm n = true).
+Proof. exact foreach_spec. Qed.
+Print Assumptions bitmap_iter_spec.
+
+Theorem bitmap_iterator_next_spec : forall bm nbit, wfb bm ->
+  match iterator_next bm nbit with
+  | (Some b, nb') => nb' = b + 1 /\ nbit <= b /\ wbit bm b = true /\ (forall m, nbit <= m < b -> wbit bm m = false)
+  | (None, _) => forall m, nbit <= m -> wbit bm m = false
+  end.
+Proof. exact iterator_next_spec. Qed.
+Print Assumptions bitmap_iterator_next_spec.
+
+Theorem bitmap_copy_equal_intersect_empty : forall a b, wfb a -> wfb b ->
+  copy a b = b /\
+  (equal_p a b = true <-> same_set a b) /\
+  (intersect_p a b = true <-> exists n, wbit a n = true /\ wbit b n = true) /\
+  (empty_p a = true <-> forall n, wbit a n = false).
+Proof. exact (fun a b Ha Hb => conj (copy_spec a b) (conj (equal_p_spec a b Ha Hb)
+                (conj (intersect_p_spec a b Ha Hb) (empty_p_spec a Ha)))). Qed.
+Print Assumptions bitmap_copy_equal_intersect_empty.
+
+(* ------------------------------------------------------------------ DLIST
+   [Dlist.wf d l]: the heap restricted to the nodes of l is exactly the doubly linked chain l
+   (head.prev = tail.next = NULL, prev/next inverse), head/tail are its ends. *)
+Theorem dlist_refines_list : forall d l o l' out,
+  Dlist.wf d l -> sstep (length (heap d)) l o = Some (l', out) ->
+  exists d', dstep d o = Some (d', out) /\ Dlist.wf d' l' /\ length (heap d') = length (heap d).
+Proof. exact dstep_refines. Qed.
+Print Assumptions dlist_refines_list.
+
+Theorem dlist_script_refines_list : forall ops d l outs,
+  Dlist.wf d l -> srun (length (heap d)) l ops = Some outs -> drun d ops = outs.
+Proof. exact dlist_script_refines. Qed.
+Print Assumptions dlist_script_refines_list.
+
+Theorem dlist_frame : forall d l o l' out d',
+  Dlist.wf d l -> sstep (length (heap d)) l o = Some (l', out) -> dstep d o = Some (d', out) ->
+  (forall x, ~ In x l' -> (match o with DPrepend e | DAppend e | DInsertBefore _ e | DInsertAfter _ e | DRemove e => x <> e | _ => True end) -> lk (heap d') x = lk (heap d) x)
+  /\ (match o with DRemove e => lk (heap d') e = nolinks | _ => True end).
+Proof. exact dstep_frame. Qed.
+Print Assumptions dlist_frame.
+
+Theorem dlist_init_wf : forall n, Dlist.wf (dinit n) [].
+Proof. exact dinit_wf. Qed.
+Print Assumptions dlist_init_wf.
